@@ -392,3 +392,18 @@ for _p in ("C05", "C06", "C07", "C08", "C18"):
     PROPS[_p]["streams"] = PROPS[_p]["streams"] + [G_SIDE]
 for _p in ("C06", "C07", "C18"):
     PROPS[_p]["streams"] = PROPS[_p]["streams"] + [CH_SIDE]
+
+# ------------------------------------------------------------------ TetriSched-CPLEX with its batching option
+# Clockwork-style request streams (single-task graphs of a few models with batch-size strategies, deadlines
+# around the boundary) planned by TetriSched-CPLEX with batching=True.  On general DAG worlds and for ILP the
+# batching mode crashes or answers inconsistently in many runs of the unchanged tree (DESIGN section 9);
+# those combinations are not generated.
+CW_CPLEX_BATCH = {"profile": "clockwork", "opts": {"batch_planner": "TetriSchedCPLEX"}}
+PROPS["C12"]["streams"] = PROPS["C12"]["streams"] + [CW_CPLEX_BATCH, CW_CPLEX_BATCH]
+PROPS["C12"]["runs"] = {"quick": 1800, "thorough": 60000}
+PROPS["C10"]["streams"] = PROPS["C10"]["streams"] + [CW_CPLEX_BATCH]
+
+# ------------------------------------------------------------------ C14: a larger share of TetriSched-Gurobi
+# worlds with a coarse grid invoked at instants that are not multiples of the grid step
+PROPS["C14"]["streams"] = [PLAN_TETRI_G, PLAN_TETRI_C, PLAN_ILP_GOODPUT, PLAN_TETRI_G]
+PROPS["C14"]["runs"] = {"quick": 1000, "thorough": 30000}
